@@ -320,6 +320,15 @@ def run_small(ns, ctx, spec):
             checks = (("INF+P", lambda: INF + P1, E1), ("P+INF", lambda: P1 + INF, E1), ("INF+J", lambda: INF + J1, E1), ("J+INF", lambda: J1 + INF, E1), ("INF*k", lambda: INF * (i1 + 2), None), ("k*INF", lambda: (i1 + 2) * INF, None),
                       ("k*P", lambda: 3 * P1, els[tab[tab[i1][i1]][i1]]), ("k*J", lambda: 3 * J1, els[tab[tab[i1][i1]][i1]]), ("True*P", lambda: True * P1, E1), ("J*True", lambda: J1 * True, E1), ("P*0", lambda: P1 * 0, None), ("J*0", lambda: J1 * 0, None),
                       ("INF.double", lambda: INF.double(), None), ("INF+INF", lambda: INF + INF, None), ("P+(-P)", lambda: P1 + (-P1), None), ("J+(-J)", lambda: J1 + (-J1), None), ("J*(n)", lambda: J1 * n, None), ("P*(-1)", lambda: P1 * (n - 1), S.neg(E1, p)))
+            # the neutral element in JACOBI form ((0, 0, z): the library's encoding of infinity is y == 0), negated, multiplied, and as
+            # either operand of mul_add
+            three = els[tab[tab[i1][i1]][i1]]
+            two = els[tab[i1][i1]]
+            for z_ in (1, 5 % p or 2):
+                Oj = lambda z_=z_: PJ(curve, 0, 0, z_, n)
+                checks += (("-O_jacobi==INF", lambda Oj=Oj: -Oj(), None), ("J+(-O_jacobi)", lambda Oj=Oj: J1 + (-Oj()), E1), ("(-O_jacobi)+J", lambda Oj=Oj: (-Oj()) + J1, E1), ("3*(-O_jacobi)", lambda Oj=Oj: (-Oj()) * 3, None),
+                           ("O_jacobi.mul_add(2,J,3)", lambda Oj=Oj: Oj().mul_add(2, J1, 3), three), ("J.mul_add(2,O_jacobi,3)", lambda Oj=Oj: J1.mul_add(2, Oj(), 3), two),
+                           ("O_jacobi.mul_add(3,J,3)", lambda Oj=Oj: Oj().mul_add(3, J1, 3), three), ("O_jacobi.double()", lambda Oj=Oj: Oj().double(), None), ("O_jacobi.scale()", lambda Oj=Oj: Oj().scale(), None))
             for cname, fn, want_ in checks:
                 ctx.ev()
                 try:
